@@ -92,3 +92,12 @@ Definition t_B := LAgg 4 false [(t_int, 0, 0, 3, 0); (t_int, 0, 3, 5, 0)].
 Example C20_example_union_bitfield :
   new_bytes FUEL (NewPtr t_U) (VList [VInt 258]) = Ok [2; 1; 0; 0] /\ new_bytes FUEL (NewPtr t_U) (VList [VInt 1; VBytes [65]]) = Err ValueError /\ new_bytes FUEL (NewPtr t_B) (VList [VInt (-1); VInt 9]) = Ok [79; 0; 0; 0].
 Proof. repeat split; vm_compute; reflexivity. Qed.
+
+(* flexible character arrays are sized in UNITS of the item type, not in code points:
+   struct S { int n; char16_t s[]; };  ffi.new("struct S *", [1, "a\U0001F600"])  needs 4 + 2*(1+2+1) bytes *)
+Definition t_S16 := LAgg 4 true [(t_int, 0, -1, -1, 0); (LArr (LPrim KChar 2) (-1), 4, -2, -1, 0)].
+Example C20_example_utf16 :
+  wf_type t_S16 = true /\ no_var_items t_S16 = true /\
+  new_bytes FUEL (NewPtr t_S16) (VList [VInt 1; VStr [97; 128512]])
+  = Ok [1;0;0;0; 97;0; 61;216; 0;222; 0;0].
+Proof. repeat split; vm_compute; reflexivity. Qed.
